@@ -2,20 +2,28 @@
 package c12
 
 import (
+	"context"
 	"fmt"
 	"math/rand/v2"
 	"runtime"
+	"sync"
+	"sync/atomic"
 	"testing"
 	"testing/synctest"
 	"time"
 
 	"github.com/platinummonkey/go-concurrency-limits/core"
+	"github.com/platinummonkey/go-concurrency-limits/limit"
+	"github.com/platinummonkey/go-concurrency-limits/limiter"
+	"github.com/platinummonkey/go-concurrency-limits/strategy"
 
 	"verifharness/internal/blk"
 	"verifharness/internal/rt"
 )
 
 func TestMain(m *testing.M) { rt.Main(m) }
+
+var returnChecks atomic.Int64
 
 func scenario(t *testing.T, idx int64, r *rand.Rand) {
 	T := []time.Duration{50 * time.Millisecond, time.Second, time.Hour}[r.IntN(3)]
@@ -47,10 +55,27 @@ func scenario(t *testing.T, idx int64, r *rand.Rand) {
 			extra["kind"], extra["capacity"], extra["ops"], extra["trace"] = k, capacity, ops, w.Trace()
 			rt.Violation(fmt.Sprintf("C12/%s/%s", k, sig), idx, extra)
 		}
+		// at the moment a caller's Acquire returns it must have left the backlog: the backlog can hold at most the callers
+		// that are inside Acquire at that instant.  returned-so-far is read first and entered-so-far last, so
+		// (entered - returned) is an upper bound of the callers inside at the instant the length is read.
+		var stale atomic.Pointer[rt.J]
+		w.OnReturn = func(wt *blk.Waiter) {
+			r0 := w.Returned.Load()
+			n := w.Queue.VerifBacklogLen()
+			e2 := w.Entered.Load()
+			returnChecks.Add(1)
+			if int64(n) > e2-r0 && stale.Load() == nil {
+				d := rt.J{"waiter": wt.ID, "ok": wt.OK, "backlog_len_when_its_acquire_returned": n, "callers_inside_acquire_at_most": e2 - r0}
+				stale.Store(&d)
+			}
+		}
 		check := func(tag string) {
 			w.Quiesce()
 			s := w.Snap(tag)
 			checks++
+			if d := stale.Load(); d != nil {
+				fail("caller-still-in-backlog-when-its-acquire-returned", *d)
+			}
 			inside := len(s.Blocked) + len(s.GivingUp) // callers whose Acquire has not returned
 			if s.QueueGauge != s.BacklogLen {
 				fail("queue-size-gauge-differs-from-backlog", rt.J{"snapshot": s})
@@ -194,6 +219,7 @@ func scenario(t *testing.T, idx int64, r *rand.Rand) {
 		trace = w.Trace()
 	})
 	rt.Count("scenarios", 1)
+	rt.Count("return_instant_backlog_checks", returnChecks.Swap(0))
 	rt.Count("quiescent_checks", int64(checks))
 	rt.Count("arrivals_at_full_backlog", int64(fullRefusals))
 	rt.Count("simultaneous_bursts", int64(bursts))
@@ -204,6 +230,54 @@ func scenario(t *testing.T, idx int64, r *rand.Rand) {
 	if rt.WantSample() && idx%29 == 3 {
 		rt.Sample(rt.J{"kind": k, "capacity": capacity, "ops": ops, "trace_head": trace[:min(len(trace), 14)]})
 	}
+}
+
+// returnInstantStress: real time, many callers on a queue limiter of limit 1.  Whenever an Acquire returns, the backlog
+// may hold at most the callers that are still inside Acquire (returned-so-far read first, entered-so-far read last).
+func returnInstantStress(idx int64, r *rand.Rand) {
+	st := strategy.NewPreciseStrategy(1)
+	dl, err := limiter.NewDefaultLimiter(limit.NewFixedLimit("c12", 1, nil), 1e9, 1e9, 1e5, 100, st, limit.NoopLimitLogger{}, core.EmptyMetricRegistryInstance)
+	if err != nil {
+		panic(err)
+	}
+	ord := []limiter.QueueOrdering{limiter.OrderingFIFO, limiter.OrderingLIFO}[r.IntN(2)]
+	nG := 4 + r.IntN(9)
+	q := limiter.NewQueueBlockingLimiterFromConfig(dl, limiter.QueueLimiterConfig{Ordering: ord, MaxBacklogSize: nG, MaxBacklogTimeout: time.Hour})
+	var entered, returned, checks atomic.Int64
+	var bad atomic.Pointer[rt.J]
+	var wg sync.WaitGroup
+	for g := 0; g < nG; g++ {
+		wg.Add(1)
+		go func(g int) {
+			defer wg.Done()
+			for i := 0; i < 250; i++ {
+				entered.Add(1)
+				l, ok := q.Acquire(context.Background())
+				r0 := returned.Add(1)
+				n := q.VerifBacklogLen()
+				e2 := entered.Load()
+				checks.Add(1)
+				if int64(n) > e2-r0 && bad.Load() == nil {
+					d := rt.J{"ordering": ord, "goroutines": nG, "backlog_len_when_an_acquire_returned": n, "callers_inside_acquire_at_most": e2 - r0, "granted": ok}
+					bad.Store(&d)
+				}
+				if ok {
+					if (g+i)%3 == 0 {
+						runtime.Gosched()
+					}
+					l.OnSuccess()
+				}
+			}
+		}(g)
+	}
+	wg.Wait()
+	rt.Count("return_instant_backlog_checks", checks.Load())
+	rt.Count("return_instant_stress_runs", 1)
+	if d := bad.Load(); d != nil {
+		rt.Violation(fmt.Sprintf("C12/queue-%s/caller-still-in-backlog-when-its-acquire-returned/stress", ord), idx, *d)
+		return
+	}
+	rt.Distinct(fmt.Sprintf("retstress|%s|%d|%d", ord, nG, idx))
 }
 
 // defaultBound: a backlog size <= 0 means "use the default" (100).  100 + k simultaneous callers at an exhausted limiter:
@@ -244,6 +318,10 @@ func TestCheck(t *testing.T) {
 		rt.Case()
 		if idx%25 == 24 {
 			defaultBound(t, idx, r)
+			return
+		}
+		if idx%25 == 12 {
+			returnInstantStress(idx, r)
 			return
 		}
 		scenario(t, idx, r)
